@@ -441,3 +441,21 @@ func tokenize(s string) []string {
 	flush()
 	return toks
 }
+
+// RunRaw feeds a complete script to a fresh solver process and returns its
+// raw output (used where the answer is the solver's sort checker's verdict).
+func RunRaw(kind, script string, timeout time.Duration) string {
+	ctx, cancel := context.WithTimeout(context.Background(), timeout+2*time.Second)
+	defer cancel()
+	args := cmdline(kind, int(timeout/time.Millisecond))
+	cmd := exec.CommandContext(ctx, args[0], args[1:]...)
+	cmd.Stdin = strings.NewReader(script)
+	var out bytes.Buffer
+	cmd.Stdout = &out
+	cmd.Stderr = &out
+	t0 := time.Now()
+	cmd.Run()
+	atomic.AddInt64(&Global.Nanos, int64(time.Since(t0)))
+	atomic.AddInt64(&Global.Queries, 1)
+	return out.String()
+}
